@@ -58,17 +58,19 @@ Fixed == [nilrule |-> TRUE]
 
 --------------------------------------------------------------------------------
 (* internal/concat.go: concatMaps :118-166, toSliceValue :228-245, concatSliceValue :168-203                            *)
+MinOf(S) == CHOOSE x \in S : \A y \in S : x <= y
 RECURSIVE CatMaps(_, _), CatVals(_, _)
 CatVals(vals, fx) ==
   LET vs == IF fx.nilrule THEN SelectSeq(vals, LAMBDA x : x.x # "nil") ELSE vals IN
   IF vs = <<>> THEN Ok(NilXV)                                         \* only with the nil rule: every value was nil
   ELSE IF vs[1].x = "nil" THEN Fail("panic", NilXV)                   \* reflect.TypeOf(nil) = nil; reflect.SliceOf(nil) panics (:229-231)
   ELSE IF \E i \in 2..Len(vs) : vs[i].x # vs[1].x THEN Fail("err", NilXV)   \* "unexpected slice element type" (:235-239)
-  ELSE IF vs[1].x = "map" THEN                                        \* element kind map: recurse even for a single value (:152-153)
-       LET r == CatMaps([i \in 1..Len(vs) |-> vs[i].m], fx) IN IF r.o = "ok" THEN Ok(MapXV(r.v)) ELSE Fail(r.o, NilXV)
+  ELSE IF vs[1].x \in {"map", "imap"} THEN                            \* element kind map: recurse even for a single value (:152-153)
+       LET r == CatMaps([i \in 1..Len(vs) |-> vs[i].m], fx) IN IF r.o = "ok" THEN Ok([MapXV(r.v) EXCEPT !.x = vs[1].x]) ELSE Fail(r.o, NilXV)
   ELSE IF Len(vs) = 1 THEN Ok(vs[1])                                  \* :171-173
   ELSE IF vs[1].x = "str" THEN Ok(StrXV(JoinS([i \in 1..Len(vs) |-> vs[i].s])))   \* concatStrings
-  ELSE IF vs[1].x = "int" THEN Ok(Last(vs))                           \* useLast
+  ELSE IF vs[1].x \in {"int", "bool"} THEN Ok(Last(vs))                \* useLast; a zero / false value is a value like any other
+  ELSE IF vs[1].x = "min" THEN Ok([vs[1] EXCEPT !.n = MinOf({vs[i].n : i \in 1..Len(vs)})])   \* a registered user function (minimum)
   ELSE Fail("err", NilXV)
 CatMaps(ms, fx) ==
   LET keys == SortedKeys(UNION {KeysOf(ms[i]) : i \in 1..Len(ms)})
@@ -136,17 +138,20 @@ CatLists(ls, fx) ==
      ELSE IF \E p \in 1..n : per[p].o = "err" THEN Fail("err", [items |-> <<>>])
      ELSE Ok([items |-> [p \in 1..n |-> per[p].v]])
 
+(* map chunk kinds: "map" = map[string]any; concretely typed elements: "mapi" = map[string]int64, "mapb" = map[string]bool,     *)
+(* "mapm" = map[string]vfMin (a struct with a registered concat function); XV "imap" = a map[string]int64 held as a value       *)
+MapKinds == {"map", "mapi", "mapb", "mapm"}
 (* ConcatItems :90-115 + concatSliceValue for the non-map kinds *)
 CatKind(kind, cs, fx) ==
   CASE kind = "msg" -> CatMsgs(cs, fx)
     [] kind = "list" -> CatLists(cs, fx)
-    [] kind = "map" -> LET r == CatMaps([i \in 1..Len(cs) |-> cs[i].kv], fx) IN IF r.o = "ok" THEN Ok([kv |-> r.v]) ELSE Fail(r.o, [kv |-> <<>>])
+    [] kind \in MapKinds -> LET r == CatMaps([i \in 1..Len(cs) |-> cs[i].kv], fx) IN IF r.o = "ok" THEN Ok([kv |-> r.v]) ELSE Fail(r.o, [kv |-> <<>>])
     [] kind = "str" -> Ok([s |-> JoinS([i \in 1..Len(cs) |-> cs[i].s])])
     [] kind = "int" -> Ok(Last(cs))
     [] kind = "acc" -> Ok([s |-> JoinS([i \in 1..Len(cs) |-> cs[i].s]), n |-> FoldLeft(LAMBDA a, b : a + b.n, 0, cs)])
     [] kind = "plain" -> LET nz == SelectSeq(cs, LAMBDA c : c.n # 0) IN          \* the single-non-zero rule :181-199
                          IF Len(nz) > 1 THEN Fail("err", [n |-> 0]) ELSE IF Len(nz) = 1 THEN Ok(nz[1]) ELSE Ok([n |-> 0])
-Dummy(kind) == CASE kind = "msg" -> EmptyM [] kind = "list" -> [items |-> <<>>] [] kind = "map" -> [kv |-> <<>>]
+Dummy(kind) == CASE kind = "msg" -> EmptyM [] kind = "list" -> [items |-> <<>>] [] kind \in MapKinds -> [kv |-> <<>>]
                  [] kind = "str" -> [s |-> ""] [] kind = "int" -> [n |-> 0] [] kind = "acc" -> [s |-> "", n |-> 0] [] kind = "plain" -> [n |-> 0]
 
 (* The function behind an entry point ("path"):                                                                        *)
@@ -186,20 +191,47 @@ ExpectCalls(calls, r) ==   \* r: the tool calls of the result
      /\ \A i \in 1..Len(ri) : ri[i].idx \in IdxSet(calls)
      /\ \A i \in 1..Len(ri) : ri[i] = MergeGroup(Group(calls, ri[i].idx))   \* ... carrying the fragments of that index in arrival order
      /\ \A i, j \in 1..Len(ri) : i < j => ri[i].idx < ri[j].idx        \* sorted by index
-RECURSIVE ExpectMap(_, _)
-ExpectMap(ms, r) ==        \* per-key concatenation of map chunks; keys whose values are nil or of mixed type: no demand
+(* elem: what the library's concatenation of the ELEMENT type gives for the values found under a concretely typed key      *)
+(* (observed by the harness with internal.ConcatItems on those values alone; computed by ElemOf for the transcription):     *)
+(* a sequence of [p, o, n], p = key or "outer/inner".  Concatenating maps is concatenating their values key by key, so     *)
+(* the value under a typed key must be exactly that -- zero / false values are values like any other.                      *)
+ElemAt(elem, p) == CHOOSE e \in RangeS(elem) : e.p = p
+HasElem(elem, p) == \E e \in RangeS(elem) : e.p = p
+TypedOK(elem, p, rv) == HasElem(elem, p) => (ElemAt(elem, p).o = "ok" => rv.n = ElemAt(elem, p).n)
+RECURSIVE ExpectMap(_, _, _, _)
+ExpectMap(ms, r, elem, prefix) ==   \* per-key concatenation of map chunks; keys whose values are nil or of mixed type: no demand
   /\ KeysOf(r) = UNION {KeysOf(ms[i]) : i \in 1..Len(ms)}
   /\ \A k \in KeysOf(r) :
-       LET vals == LET idx == SelectSeq([i \in 1..Len(ms) |-> i], LAMBDA i : k \in KeysOf(ms[i])) IN [q \in 1..Len(idx) |-> ValOf(ms[idx[q]], k)]
+       LET all == LET idx == SelectSeq([i \in 1..Len(ms) |-> i], LAMBDA i : k \in KeysOf(ms[i])) IN [q \in 1..Len(idx) |-> ValOf(ms[idx[q]], k)]
+           vals == all
            rv == ValOf(r, k)
-       IN IF \E i \in 1..Len(vals) : vals[i].x \notin {"str", "int", "map"} \/ vals[i].x # vals[1].x THEN TRUE
+       IN IF \E i \in 1..Len(vals) : vals[i].x \notin {"str", "int", "bool", "min", "map", "imap"} \/ vals[i].x # vals[1].x THEN TRUE
           ELSE IF vals[1].x = "str" THEN rv = StrXV(JoinS([i \in 1..Len(vals) |-> vals[i].s]))   \* text keeps arrival order
-          ELSE IF vals[1].x = "int" THEN \E i \in 1..Len(vals) : rv = vals[i]     \* which number survives is the registered function's business
-          ELSE rv.x = "map" /\ ExpectMap([i \in 1..Len(vals) |-> vals[i].m], rv.m)
+          ELSE IF vals[1].x \in {"int", "bool", "min"} THEN
+               /\ rv.x = vals[1].x
+               /\ (vals[1].x # "min" => \E i \in 1..Len(vals) : rv = vals[i])     \* which number survives is the registered function's business ...
+               /\ TypedOK(elem, prefix \o k, rv)                                  \* ... but under a typed key it is what that function gives
+          ELSE rv.x = vals[1].x /\ ExpectMap([i \in 1..Len(vals) |-> vals[i].m], rv.m, elem, prefix \o k \o "/")
+(* the element concatenations the transcription predicts (same shape as the harness's elem) *)
+ElemOfMaps(ms, fx, prefix) ==
+  LET keys == SortedKeys(UNION {KeysOf(ms[i]) : i \in 1..Len(ms)})
+  IN [j \in 1..Len(keys) |->
+        LET idx == SelectSeq([i \in 1..Len(ms) |-> i], LAMBDA i : keys[j] \in KeysOf(ms[i]))
+            o == CatVals([q \in 1..Len(idx) |-> ValOf(ms[idx[q]], keys[j])], fx)
+        IN [p |-> prefix \o keys[j], o |-> o.o, n |-> o.v.n]]
+ElemOf(kind, cs, fx) ==
+  IF kind \in {"mapi", "mapb", "mapm"} THEN ElemOfMaps([i \in 1..Len(cs) |-> cs[i].kv], fx, "")
+  ELSE IF kind \in {"map", "msg"} THEN
+       LET ms == IF kind = "map" THEN [i \in 1..Len(cs) |-> cs[i].kv] ELSE SelectSeq([i \in 1..Len(cs) |-> cs[i].extra], LAMBDA e : e # <<>>)
+           outer == SortedKeys(UNION {KeysOf(ms[i]) : i \in 1..Len(ms)})
+           inner(k) == LET idx == SelectSeq([i \in 1..Len(ms) |-> i], LAMBDA i : k \in KeysOf(ms[i]) /\ ValOf(ms[i], k).x = "imap")
+                       IN ElemOfMaps([q \in 1..Len(idx) |-> ValOf(ms[idx[q]], k).m], fx, k \o "/")
+       IN IF Len(outer) = 0 THEN <<>> ELSE FlattenSeq([j \in 1..Len(outer) |-> inner(outer[j])])
+  ELSE <<>>
 MsgConflict(cs) == \/ \E i \in 1..Len(cs) : cs[i].nil
                    \/ Conflict([i \in 1..Len(cs) |-> cs[i].role]) \/ Conflict([i \in 1..Len(cs) |-> cs[i].name]) \/ Conflict([i \in 1..Len(cs) |-> cs[i].tcid])
 (* "" when the outcome o of concatenating cs satisfies every clause, else the name of the first clause it breaks *)
-WhyMsg(cs, o) ==
+WhyMsg(cs, o, elem) ==
   IF MsgConflict(cs) THEN (IF o.o = "ok" THEN "conflicting-role-name-or-id-accepted" ELSE "")   \* "returns an error if the messages have different roles or names"
   ELSE IF o.o # "ok" THEN ""
   ELSE
@@ -218,20 +250,21 @@ WhyMsg(cs, o) ==
                  /\ um # <<>> => (\E i \in 1..Len(um) : r.meta.p = um[i].p) /\ (\E i \in 1..Len(um) : r.meta.c = um[i].c) /\ (\E i \in 1..Len(um) : r.meta.t = um[i].t))
             THEN "usage-not-the-maximum"
        ELSE IF r.meta.fin # (IF fs = <<>> THEN "" ELSE Last(fs)) THEN "finish-reason-not-the-last"
-       ELSE IF ~ExpectMap(SelectSeq([i \in 1..Len(cs) |-> cs[i].extra], LAMBDA e : e # <<>>), r.extra) THEN "extra-not-merged-per-key"
+       ELSE IF ~ExpectMap(SelectSeq([i \in 1..Len(cs) |-> cs[i].extra], LAMBDA e : e # <<>>), r.extra, elem, "") THEN "extra-not-merged-per-key"
        ELSE ""
-Why(kind, cs, o) ==
-  CASE kind = "msg" -> WhyMsg(cs, o)
-    [] kind = "map" -> IF o.o = "ok" /\ ~ExpectMap([i \in 1..Len(cs) |-> cs[i].kv], o.v.kv) THEN "map-not-merged-per-key" ELSE ""
+Why(kind, cs, o, elem) ==
+  CASE kind = "msg" -> WhyMsg(cs, o, elem)
+    [] kind \in MapKinds -> IF o.o = "ok" /\ ~ExpectMap([i \in 1..Len(cs) |-> cs[i].kv], o.v.kv, elem, "") THEN "map-not-merged-per-key"
+                            ELSE IF o.o = "ok" /\ \E e \in RangeS(elem) : e.o # "ok" THEN "map-accepted-what-its-elements-refuse" ELSE ""
     [] kind = "str" -> IF o.o # "ok" \/ o.v.s # JoinS([i \in 1..Len(cs) |-> cs[i].s]) THEN "text-not-in-arrival-order" ELSE ""
     [] kind = "list" -> IF (\E i \in 1..Len(cs) : Len(cs[i].items) # Len(cs[1].items)) /\ o.o = "ok" THEN "list-length-mismatch-accepted" ELSE ""
     [] OTHER -> ""
-Expect(kind, cs, o) == Why(kind, cs, o) = ""
+Expect(kind, cs, o, elem) == Why(kind, cs, o, elem) = ""
 
 HasNilXV(m) == \E i \in 1..Len(m) : m[i].v.x = "nil" \/ \E j \in 1..Len(m[i].v.m) : m[i].v.m[j].v.x = "nil"
 HasNilValue(kind, cs) ==
   CASE kind = "msg" -> \E i \in 1..Len(cs) : HasNilXV(cs[i].extra)
     [] kind = "list" -> \E i \in 1..Len(cs) : \E p \in 1..Len(cs[i].items) : HasNilXV(cs[i].items[p].extra)
-    [] kind = "map" -> \E i \in 1..Len(cs) : HasNilXV(cs[i].kv)
+    [] kind \in MapKinds -> \E i \in 1..Len(cs) : HasNilXV(cs[i].kv)
     [] OTHER -> FALSE
 ================================================================================
